@@ -33,6 +33,7 @@ type AMq struct {
 	CmpA  ACmp     `json:"cmpa"`
 	TopFn string   `json:"topfn"`
 	TopK  int      `json:"topk"`
+	CmpT  ACmp     `json:"cmpt"` // the comparison written after topk / bottomk
 }
 
 type ACmp struct {
@@ -89,11 +90,17 @@ func (k *Conc) groupText(kind string, names []string) string {
 	return fmt.Sprintf("%s (%s)", kind, strings.Join(ns, ", "))
 }
 
-// thresholdText renders k4/4 (per second for a rate) with at most 6 decimals (the planner prints %f).
-func thresholdText(mq *AMq, c ACmp) string {
+// thresholdText renders k4/4 (per second for a rate) with at most 6 decimals (the planner prints %f). The specification
+// compares with k4 / (4 * range ticks) for a rate; a value counted by the vector aggregation count is not per second
+// (concSeries), so a threshold behind it is not scaled by the seconds per tick either.
+func thresholdText(mq *AMq, c ACmp, afterAgg bool) string {
 	v := float64(c.K4) / 4
 	if isRate(mq.Fn) {
-		v /= float64(mq.Range * mq.Unit)
+		if afterAgg && mq.Agg == "count" {
+			v /= float64(mq.Range)
+		} else {
+			v /= float64(mq.Range * mq.Unit)
+		}
 	}
 	return strconv.FormatFloat(math.Round(v*1e6)/1e6, 'f', -1, 64)
 }
@@ -116,7 +123,7 @@ func (k *Conc) metricQueryText(q *AQuery, mq *AMq) string {
 		s = fmt.Sprintf("%s(%s %s)", fn, inner, rng)
 	}
 	if mq.CmpL.Op != "" {
-		s += " " + mq.CmpL.Op + " " + thresholdText(mq, mq.CmpL)
+		s += " " + mq.CmpL.Op + " " + thresholdText(mq, mq.CmpL, false)
 	}
 	if mq.Agg != "" {
 		switch {
@@ -128,11 +135,14 @@ func (k *Conc) metricQueryText(q *AQuery, mq *AMq) string {
 			s = fmt.Sprintf("%s(%s) %s", mq.Agg, s, k.groupText(mq.Grp, mq.GrpL))
 		}
 		if mq.CmpA.Op != "" {
-			s += " " + mq.CmpA.Op + " " + thresholdText(mq, mq.CmpA)
+			s += " " + mq.CmpA.Op + " " + thresholdText(mq, mq.CmpA, true)
 		}
 	}
 	if mq.TopFn != "" {
 		s = fmt.Sprintf("%s(%d, %s)", mq.TopFn, mq.TopK, s)
+		if mq.CmpT.Op != "" {
+			s += " " + mq.CmpT.Op + " " + thresholdText(mq, mq.CmpT, mq.Agg != "")
+		}
 	}
 	return s
 }
@@ -371,6 +381,13 @@ func runMetricCase(w *World, p *prepared) *caseOutcome {
 	if mq.TopFn != "" {
 		out.tags = append(out.tags, mq.TopFn)
 	}
+	if mq.TopFn != "" && mq.CmpT.Op != "" {
+		out.tags = append(out.tags, "topcmp:"+mq.TopFn+":"+mq.CmpT.Op)
+		if c.OrdObs {
+			// the specification says that applying the threshold to the operand of the k-selection gives another answer
+			out.tags = append(out.tags, "topcmp-order-observable:"+mq.TopFn+":"+planningPath(c, mq))
+		}
+	}
 	switch {
 	case mq.Step < mq.Range:
 		out.tags = append(out.tags, "step<range")
@@ -443,6 +460,26 @@ func runMetricCase(w *World, p *prepared) *caseOutcome {
 	out.sig = why + "|" + cls
 	out.msg = fmt.Sprintf("%s step=%ss: %s", req.Query, req.StepS, msg)
 	return out
+}
+
+// planningPath names the way the planner takes for the matrix functions of a metric query: the metrics_15s shortcut
+// (planMetrics15Shortcut), or getFunctionOrder at a range below 15 s / at a longer range.
+func planningPath(c *ACase, mq *AMq) string {
+	sec := mq.Range * mq.Unit
+	if sec < 15 {
+		return "short-range"
+	}
+	short := (mq.Fn == "rate" || mq.Fn == "count_over_time") && sec%15 == 0
+	for _, st := range c.Q.P {
+		switch st.K {
+		case "jsonp", "regexp", "json", "drop", "dropv", "lf", "unwrap":
+			short = false
+		}
+	}
+	if short {
+		return "shortcut15s"
+	}
+	return "long-range-sql"
 }
 
 func exp2json(m map[string][]mpt) map[string][]string {
@@ -534,6 +571,9 @@ func metricWhy(k *Conc, c *ACase, mq *AMq) string {
 	}
 	if mq.CmpL.Op != "" || mq.CmpA.Op != "" {
 		parts = append(parts, "cmp")
+	}
+	if mq.TopFn != "" && mq.CmpT.Op != "" {
+		parts = append(parts, "cmp-after-"+mq.TopFn)
 	}
 	if shortcut {
 		parts = append(parts, "shortcut15s")
